@@ -1,8 +1,8 @@
 From Coq Require Import Extraction ExtrOcamlBasic.
-From BV Require Import lib.ExtractBase lib.Ints gen.Params_gen model.EC.
+From BV Require Import lib.ExtractBase lib.Ints gen.Params_gen model.EC model.ECSign.
 Extraction "model.ml" extract_base
   secp_p secp_n secp_half_n scalar_is_high scalar_check_overflow
   sig_parse_compact sig_normalize ec_seckey_verify ec_seckey_negate ec_seckey_tweak_add ec_seckey_tweak_mul
   ec_pubkey_parse ec_pubkey_serialize ec_pubkey_create ec_pubkey_negate ec_pubkey_tweak_add
   xonly_from_pubkey xonly_parse xonly_serialize xonly_tweak_add xonly_tweak_add_check
-  ecdsa_verify node_ecdsa_verify scalar_bytes on_curve be_val.
+  ecdsa_verify node_ecdsa_verify scalar_bytes on_curve be_val ckey_sign_exec.
